@@ -198,7 +198,7 @@ def run_batch(requests: List[Dict[str, Any]], scratch: Path, parallel: int = NCP
                               "timeout": timeout, "preimport": list(preimport)}, default=str))
     env = dict(os.environ)
     env["PYTHONHASHSEED"] = "0"
-    env["PYTHONPATH"] = f"{REPO}:{VERIF}:{VERIF / '.deps'}"
+    env["PYTHONPATH"] = f"{REPO}:{VERIF}:{VERIF / '.deps'}:{VERIF / 'vf' / 'stubs' / 'pow'}"
     env.pop("PYTHONSTARTUP", None)
     wall = max(300, timeout * (len(requests) // max(parallel, 1) + 2))
     try:
